@@ -1562,6 +1562,7 @@ def _scalar_replacement(fn, records):
                     vals[k.arg] = k.value
                 if set(vals) == set(fields) and all(frozen(a, x) for a in vals.values()):
                     aggs[x.targets[0].id] = ('record', {f_: a.id for f_, a in vals.items()}, [vals[f_].id for f_ in fields])
+    _field_variables(fn, records, aggs)
     if not aggs:
         return
 
@@ -1605,6 +1606,72 @@ def _scalar_replacement(fn, records):
                     return res or ast.copy_location(ast.Pass(), node)
             return node
     _T().visit(fn)
+    ast.fix_missing_locations(fn)
+
+
+def _field_variables(fn, records, done):
+    """a local that is bound several times, every time to a record of ONE type built from names and constants: each field gets a variable of its
+    own (`x = R(a, 1)` is followed by `x__f = a; x__g = 1`) and a read `x.f` reads that variable"""
+    import copy
+    by_name = {}
+    bad = set()
+    for x in ast.walk(fn):
+        if isinstance(x, ast.Assign):
+            for t in x.targets:
+                for y in ast.walk(t):
+                    if isinstance(y, ast.Name):
+                        v = x.value
+                        ok = t is y and len(x.targets) == 1 and isinstance(v, ast.Call) and isinstance(v.func, ast.Name) and v.func.id in records and \
+                            not any(isinstance(a, ast.Starred) for a in v.args) and all(k.arg for k in v.keywords)
+                        if ok:
+                            fields = records[v.func.id]
+                            vals = dict(zip(fields, v.args))
+                            vals.update({k.arg: k.value for k in v.keywords})
+                            ok = set(vals) == set(fields) and all(isinstance(a, (ast.Name, ast.Constant)) for a in vals.values())
+                        if ok:
+                            by_name.setdefault(y.id, []).append((x, v.func.id, vals))
+                        else:
+                            bad.add(y.id)
+        elif isinstance(x, (ast.For, ast.AugAssign, ast.With, ast.ExceptHandler, ast.NamedExpr, ast.comprehension)):
+            tg = getattr(x, 'target', None)
+            for y in (ast.walk(tg) if isinstance(tg, ast.AST) else []):
+                if isinstance(y, ast.Name):
+                    bad.add(y.id)
+    params = {a.arg for a in fn.args.posonlyargs + fn.args.args + fn.args.kwonlyargs}
+    todo = {nm: v for nm, v in by_name.items() if nm not in bad and nm not in params and nm not in done and len(v) >= 2 and len({t for (_s, t, _v) in v}) == 1}
+    if not todo:
+        return
+    for nm, stores_ in todo.items():
+        for (st, _t, vals) in stores_:
+            st._field_assigns = [ast.copy_location(ast.Assign(targets=[ast.Name(id='%s__%s' % (nm, f_), ctx=ast.Store())], value=copy.deepcopy(a), type_comment=None), st) for f_, a in vals.items()]
+
+    class _A(ast.NodeTransformer):
+        def visit_Attribute(self, node):
+            self.generic_visit(node)
+            if isinstance(node.ctx, ast.Load) and isinstance(node.value, ast.Name) and node.value.id in todo and node.attr in todo[node.value.id][0][2]:
+                return ast.copy_location(ast.Name(id='%s__%s' % (node.value.id, node.attr), ctx=ast.Load()), node)
+            return node
+
+        def visit_Lambda(self, node):
+            return node
+
+        def visit_FunctionDef(self, node):
+            if node is fn:
+                self.generic_visit(node)
+            return node
+    _A().visit(fn)
+    for x in ast.walk(fn):
+        for fld in ('body', 'orelse', 'finalbody'):
+            lst = getattr(x, fld, None)
+            if isinstance(lst, list):
+                i = 0
+                while i < len(lst):
+                    extra = getattr(lst[i], '_field_assigns', None)
+                    if extra:
+                        lst[i]._field_assigns = None
+                        lst[i + 1:i + 1] = extra
+                        i += len(extra)
+                    i += 1
     ast.fix_missing_locations(fn)
 
 
